@@ -11,6 +11,8 @@ C. '.' == data columns not used on the left-hand side, in data order.
 """
 from __future__ import annotations
 
+from vf.bounded import _meta_guard as _g  # noqa: E402
+
 import itertools
 import random
 import warnings
@@ -520,8 +522,13 @@ def check_dot(b, counts, rng, thorough):
 
 # -----------------------------------------------------------------------------
 def run_bounded(ctx):
+    _g.begin("C17", ctx)
     rng = random.Random(ctx.seed)
     counts = {}
+
+    def rec(b):
+        return lambda clause, cls, witness, detail: _fail(b, counts, clause, cls, witness, detail)
+
     with warnings.catch_warnings():
         warnings.simplefilter("ignore")
         with ctx.bounded(
@@ -536,7 +543,7 @@ def run_bounded(ctx):
         ) as b:
             for formula, kind, reads, ctxname, before_ok in formulas_a(rng, ctx.thorough):
                 for extra in ((), ("unused1", "w")):
-                    check_required(b, counts, formula, kind, set(reads), ctxname, before_ok, extra)
+                    _g.guard(rec(b), check_required, b, counts, formula, kind, set(reads), ctxname, before_ok, extra)
         with ctx.bounded(
             "resolution-order",
             rule="every name in {n (no transform), log, center (built-in transforms), `my col`, `a-b` (not identifiers, back-ticked)} x presence in data/context (3 patterns) x 4 ways "
@@ -549,7 +556,7 @@ def run_bounded(ctx):
             exhaustive=True,
             bound="(5 names x 3 presence patterns x 4 usages + 25 callable/attribute cases) x 7 context-passing styles",
         ) as b:
-            check_resolution(b, counts)
+            _g.guard(rec(b), check_resolution, b, counts)
         with ctx.bounded(
             "dot-expansion",
             rule="16 formulas with '.' (different left-hand sides incl. calls/expressions/quoted names/column names containing a dot next to their root, '.' alone, removal, extra "
@@ -559,7 +566,7 @@ def run_bounded(ctx):
             exhaustive=False,
             bound="columns <= 5",
         ) as b:
-            check_dot(b, counts, rng, ctx.thorough)
+            _g.guard(rec(b), check_dot, b, counts, rng, ctx.thorough)
     ctx.assume(
         "C17-before: Formula.required_variables is only judged for formulas whose free value-names are all data columns (names living "
         "in the caller's context are documented to be reported until materialization resolves them)",
